@@ -172,7 +172,126 @@ def desugar_tree(tree):
 
 
 
-MODES = ("rename", "swap", "both", "noelse", "temps", "keys", "desugar")
+class Guard(ast.NodeTransformer):
+    """a final `if c: A else: B` of a function body (resp. loop body) becomes `if c: A; return` (resp. `continue`)
+    followed by B"""
+    def _last(self, block, exit_stmt):
+        if block and isinstance(block[-1], ast.If) and block[-1].body and block[-1].orelse:
+            s = block[-1]
+            if not isinstance(s.body[-1], (ast.Return, ast.Raise, ast.Continue, ast.Break)):
+                s.body = s.body + [exit_stmt()]
+            tail = s.orelse
+            s.orelse = []
+            return block[:-1] + [s] + tail
+        return block
+
+    def visit_FunctionDef(self, node):
+        self.generic_visit(node)
+        if not any(isinstance(x, (ast.Yield, ast.YieldFrom)) for x in ast.walk(node)):
+            node.body = self._last(node.body, lambda: ast.Return(value=None))
+        return node
+
+    def visit_For(self, node):
+        self.generic_visit(node)
+        if not node.orelse:
+            node.body = self._last(node.body, lambda: ast.Continue())
+        return node
+
+
+class Comp(ast.NodeTransformer):
+    """`x = []` + `for a in A: [if c:] x.append(e)`  ->  `x = [e for a in A if c]` (when x is not otherwise read in the loop)"""
+    def _block(self, stmts):
+        out, i = [], 0
+        while i < len(stmts):
+            a = stmts[i]
+            b = stmts[i + 1] if i + 1 < len(stmts) else None
+            done = False
+            if isinstance(a, ast.Assign) and len(a.targets) == 1 and isinstance(a.targets[0], ast.Name) \
+                    and isinstance(a.value, ast.List) and not a.value.elts and isinstance(b, ast.For) and not b.orelse:
+                name = a.targets[0].id
+                gens, cur, ok = [], b, True
+                elt = None
+                while ok:
+                    if isinstance(cur, ast.For) and not cur.orelse and len(cur.body) == 1:
+                        gens.append(ast.comprehension(target=cur.target, iter=cur.iter, ifs=[], is_async=0))
+                        cur = cur.body[0]
+                    elif isinstance(cur, ast.If) and not cur.orelse and len(cur.body) == 1 and gens:
+                        gens[-1].ifs.append(cur.test)
+                        cur = cur.body[0]
+                    elif isinstance(cur, ast.Expr) and isinstance(cur.value, ast.Call) and isinstance(cur.value.func, ast.Attribute) \
+                            and cur.value.func.attr == "append" and isinstance(cur.value.func.value, ast.Name) \
+                            and cur.value.func.value.id == name and len(cur.value.args) == 1 and gens:
+                        elt = cur.value.args[0]
+                        break
+                    else:
+                        ok = False
+                uses = sum(1 for x in ast.walk(b) if isinstance(x, ast.Name) and x.id == name)
+                if ok and elt is not None and uses == 1:
+                    out.append(ast.Assign(targets=a.targets, value=ast.ListComp(elt=elt, generators=gens)))
+                    i += 2
+                    done = True
+            if not done:
+                out.append(a)
+                i += 1
+        return out
+
+    def generic_visit(self, node):
+        super().generic_visit(node)
+        for f in ("body", "orelse", "finalbody"):
+            b = getattr(node, f, None)
+            if isinstance(b, list) and b and isinstance(b[0], ast.stmt):
+                setattr(node, f, self._block(b))
+        return node
+
+
+class Alias(ast.NodeTransformer):
+    """`self.<attr>` read at least twice in a method that never stores into it (nor calls anything named like a setter of
+    it) is read once into a local at the top of the method — only for methods without early side effects: the first
+    statement must not be a raise / assert and the attribute must be read unconditionally in the first statement that uses it"""
+    def visit_FunctionDef(self, node):
+        self.generic_visit(node)
+        if not node.args.args or node.args.args[0].arg != "self" or node.name.startswith("__"):
+            return node
+        if any(isinstance(x, (ast.Yield, ast.YieldFrom, ast.Lambda, ast.FunctionDef)) and x is not node for x in ast.walk(node)):
+            return node
+        stored = set()
+        for x in ast.walk(node):
+            if isinstance(x, ast.Attribute) and isinstance(x.value, ast.Name) and x.value.id == "self" \
+                    and isinstance(x.ctx, (ast.Store, ast.Del)):
+                stored.add(x.attr)
+        calls_self = any(isinstance(x, ast.Call) and isinstance(x.func, ast.Attribute) and isinstance(x.func.value, ast.Name)
+                         and x.func.value.id == "self" for x in ast.walk(node))
+        if calls_self or stored:
+            return node          # a method call on self, or a store, may change what the attribute returns
+        if not node.body or not isinstance(node.body[0], (ast.Assign, ast.Return, ast.Expr)):
+            return node
+        first = node.body[0]
+        counts = {}
+        for x in ast.walk(node):
+            if isinstance(x, ast.Attribute) and isinstance(x.value, ast.Name) and x.value.id == "self" and isinstance(x.ctx, ast.Load):
+                counts[x.attr] = counts.get(x.attr, 0) + 1
+        in_first = {x.attr for x in ast.walk(first) if isinstance(x, ast.Attribute) and isinstance(x.value, ast.Name)
+                    and x.value.id == "self"}
+        # only attributes the first statement reads anyway (so hoisting them does not change which errors can occur)
+        chosen = sorted(a for a, c in counts.items() if c >= 2 and a in in_first)[:1]
+        if not chosen:
+            return node
+        a = chosen[0]
+        local = f"{a}_alias"
+
+        class R(ast.NodeTransformer):
+            def visit_Attribute(self, n):
+                self.generic_visit(n)
+                if isinstance(n.value, ast.Name) and n.value.id == "self" and n.attr == a and isinstance(n.ctx, ast.Load):
+                    return ast.Name(id=local, ctx=ast.Load())
+                return n
+        node.body = [R().visit(st) for st in node.body]
+        node.body.insert(0, ast.Assign(targets=[ast.Name(id=local, ctx=ast.Store())],
+                                       value=ast.Attribute(value=ast.Name(id="self", ctx=ast.Load()), attr=a, ctx=ast.Load())))
+        return node
+
+
+MODES = ("rename", "swap", "both", "noelse", "temps", "keys", "desugar", "guard", "comp", "alias")
 
 
 def transform_tree(mode, tree):
@@ -188,6 +307,12 @@ def transform_tree(mode, tree):
         tree = Keys().visit(tree)
     if mode == "desugar":
         tree = desugar_tree(tree)
+    if mode == "guard":
+        tree = Guard().visit(tree)
+    if mode == "comp":
+        tree = Comp().visit(tree)
+    if mode == "alias":
+        tree = Alias().visit(tree)
     ast.fix_missing_locations(tree)
     return tree
 
